@@ -13,6 +13,8 @@ import (
 	"k8s.io/client-go/dynamic"
 	"k8s.io/client-go/dynamic/dynamicinformer"
 	"k8s.io/client-go/tools/cache"
+
+	"github.com/flant/shell-operator/pkg/utils/verifhook"
 )
 
 var (
@@ -117,6 +119,8 @@ func (c *FactoryStore) Start(ctx context.Context, informerId string, client dyna
 
 	if !informer.HasSynced() {
 		go informer.Run(factory.ctx.Done())
+
+		verifhook.Point("fs.start.beforeSyncPoll", informer.HasSynced)
 
 		if err := wait.PollUntilContextCancel(ctx, DefaultSyncTime, true, func(_ context.Context) (bool, error) {
 			return informer.HasSynced(), nil
